@@ -494,4 +494,237 @@ theorem dol_tail (names : List Str) (e : Env) (ts : List Tok) (r : Str) (i : Nat
     cases eval e (dolAux names none r) <;> simp
 
 
+/-! ## Assembly: the generated prefix expression evaluates to the substituted prefix -/
+
+
+theorem eval_append (e : Env) (a b : Template) (x : Str) (h : eval e a = some x) :
+    eval e (a ++ b) = (eval e b).map (x ++ ·) := by
+  induction a generalizing x with
+  | nil =>
+    simp only [eval, Option.some.injEq] at h; subst h
+    cases hb : eval e b <;> simp [hb]
+  | cons s a ih =>
+    simp only [eval] at h
+    cases hs : evalSeg e s with
+    | none => simp [hs] at h
+    | some y =>
+      cases ha : eval e a with
+      | none => simp [hs, ha] at h
+      | some z =>
+        simp only [hs, ha, Option.some.injEq] at h
+        subst h
+        simp only [List.cons_append, eval, hs, ih z ha]
+        cases eval e b <;> simp
+
+theorem hzDQ_ok : HzOk hzDQ := fun c h => (plain_ne c h).2.2.2.2.2
+theorem hzSQ_ok : HzOk hzSQ := fun c h => (plain_ne c h).2.2.2.2.1
+theorem hzNone_ok : HzOk hzNone := fun _ _ => rfl
+
+theorem varName_none_iff (t : Tok) : t.varName = none ↔ t.isVar = false := by
+  cases t with
+  | word s => simp [Tok.varName, Tok.isVar]
+  | braced s => by_cases h : s.all isWordChar = true <;> simp [Tok.varName, Tok.isVar, h]
+
+theorem novars_all (ts : List Tok) (h : varNames ts = []) : ∀ t ∈ ts, t.isVar = false := by
+  intro t ht
+  rw [← varName_none_iff]
+  cases hv : t.varName with
+  | none => rfl
+  | some n =>
+    have : n ∈ varNames ts := by
+      simp only [varNames, List.mem_filterMap]; exact ⟨t, ht, hv⟩
+    rw [h] at this; simp at this
+
+theorem novars_tail (repl : Str) (vals : List Str) (ts : List Tok) (i : Nat) (h : ∀ t ∈ ts, t.isVar = false) :
+    renderTail repl ts = tailString ts ∧ substTail vals ts i = tailString ts := by
+  induction ts generalizing i with
+  | nil => exact ⟨rfl, rfl⟩
+  | cons t ts ih =>
+    have ht := h t (by simp)
+    have := ih (nextIdx t i) (fun u hu => h u (by simp [hu]))
+    simp [renderTail, substTail, tailString, Tok.piece, substTok, ht, this.1, this.2]
+
+theorem novars_prefix (repl : Str) (vals : List Str) (ts : List Tok) (h : ∀ t ∈ ts, t.isVar = false) :
+    render repl ts = prefixString ts ∧ substPrefix vals ts = prefixString ts := by
+  cases ts with
+  | nil => exact ⟨rfl, rfl⟩
+  | cons t ts =>
+    have ht := h t (by simp)
+    have := novars_tail repl vals ts (nextIdx t 0) (fun u hu => h u (by simp [hu]))
+    simp [render, substPrefix, prefixString, Tok.piece, substTok, ht, this.1, this.2]
+
+theorem plain_tail (ts : List Tok) (h : plainTokens ts = true) (hv : ∀ t ∈ ts, t.isVar = false) :
+    plainStr (tailString ts) = true := by
+  induction ts with
+  | nil => rfl
+  | cons t ts ih =>
+    simp only [plainTokens, List.all_cons, Bool.and_eq_true] at h
+    have ht := hv t (by simp)
+    have h1 : plainStr t.text = true := by simpa [ht] using h.1
+    have h2 := ih (by simpa [plainTokens] using h.2) (fun u hu => hv u (by simp [hu]))
+    simp only [plainStr] at h1 h2 ⊢
+    simp [tailString, List.all_append, h1, h2, dot_plain]
+
+theorem plain_prefix (ts : List Tok) (h : plainTokens ts = true) (hv : ∀ t ∈ ts, t.isVar = false) :
+    plainStr (prefixString ts) = true := by
+  cases ts with
+  | nil => rfl
+  | cons t ts =>
+    simp only [plainTokens, List.all_cons, Bool.and_eq_true] at h
+    have ht := hv t (by simp)
+    have h1 : plainStr t.text = true := by simpa [ht] using h.1
+    have h2 := plain_tail ts (by simpa [plainTokens] using h.2) (fun u hu => hv u (by simp [hu]))
+    simp only [plainStr] at h1 h2 ⊢
+    simp [prefixString, List.all_append, h1, h2]
+
+theorem prefixString_ne_nil (t : Tok) (ts : List Tok) (h : t.wf = true) : prefixString (t :: ts) ≠ [] := by
+  simp only [Tok.wf, Bool.and_eq_true] at h
+  cases t with
+  | word s =>
+    cases s with
+    | nil => simp [Tok.inner] at h
+    | cons c s => simp [prefixString, Tok.text]
+  | braced s => simp [prefixString, Tok.text]
+
+/-- The hypotheses under which the generated code is plain: grammar-conformant tokens, no
+format / quoting character in a static token or in the delimiter. -/
+structure PlainScope (sc : Scope) (delim : Str) : Prop where
+  wf : ∀ t ∈ sc.pfx, t.wf = true
+  plain : plainTokens sc.pfx = true
+  pdelim : plainStr delim = true
+
+theorem vars_eq (sc : Scope) (h : ∀ t ∈ sc.pfx, t.wf = true) : sc.vars = varNames sc.pfx :=
+  scanVars_prefixString sc.pfx h
+
+def prefixVal (sc : Scope) (vals : List Str) (delim : Str) : Str :=
+  if sc.pfx = [] then [] else substPrefix vals sc.pfx ++ delim
+
+theorem prefixPct_eval (e : Env) (sc : Scope) (delim : Str) (h : PlainScope sc delim) :
+    eval e (prefixPct sc.pfxStr delim sc.vars) = some (prefixVal sc e.vals delim) := by
+  rw [vars_eq sc h.wf]
+  unfold prefixPct prefixVal Scope.pfxStr
+  cases hp : sc.pfx with
+  | nil => simp [varNames, prefixString, eval]
+  | cons t ts =>
+    have hwf : ∀ u ∈ t :: ts, u.wf = true := hp ▸ h.wf
+    have hpl : plainTokens (t :: ts) = true := hp ▸ h.plain
+    have hne := prefixString_ne_nil t ts (hwf t (by simp))
+    by_cases hv : varNames (t :: ts) = []
+    · have hall := novars_all _ hv
+      have hs := (novars_prefix [] e.vals _ hall).2
+      have hps := plain_prefix _ hpl hall
+      rw [if_pos hv, if_neg hne, if_neg (by simp), hs]
+      apply litq_plain hzDQ hzDQ_ok
+      simp only [plainStr] at hps ⊢
+      have hd : delim.all plainChar = true := h.pdelim
+      simp [List.all_append, hps, hd]
+    · rw [if_neg hv, if_neg (by simp), templateStr_prefixString _ _ hwf]
+      exact pct_prefix hzDQ hzDQ_ok e _ delim hpl h.pdelim (by simp)
+
+
+
+theorem prefixPy_eval (e : Env) (sc : Scope) (delim : Str) (h : PlainScope sc delim) :
+    eval e (prefixPy sc.pfxStr delim sc.vars) = some (prefixVal sc e.vals delim) := by
+  rw [vars_eq sc h.wf]
+  unfold prefixPy prefixVal Scope.pfxStr
+  cases hp : sc.pfx with
+  | nil => simp [varNames, prefixString, eval]
+  | cons t ts =>
+    have hwf : ∀ u ∈ t :: ts, u.wf = true := hp ▸ h.wf
+    have hpl : plainTokens (t :: ts) = true := hp ▸ h.plain
+    have hne := prefixString_ne_nil t ts (hwf t (by simp))
+    by_cases hv : varNames (t :: ts) = []
+    · have hall := novars_all _ hv
+      have hs := (novars_prefix [] e.vals _ hall).2
+      have hps := plain_prefix _ hpl hall
+      rw [if_pos hv, if_neg hne, if_neg (by simp), hs]
+      apply litq_plain hzSQ hzSQ_ok
+      simp only [plainStr] at hps ⊢
+      have hd : delim.all plainChar = true := h.pdelim
+      simp [List.all_append, hps, hd]
+    · rw [if_neg hv, if_neg (by simp), templateStr_prefixString _ _ hwf]
+      exact br_prefix hzSQ hzSQ_ok e _ delim hpl h.pdelim (by simp)
+
+theorem okFollow_delim (delim : Str) (hd : plainStr delim = true) (hs : identStart delim = false) :
+    OkFollow delim := by
+  intro c F' hF
+  subst hF
+  simp only [plainStr, List.all_cons, Bool.and_eq_true] at hd
+  have := plain_ne c hd.1
+  exact ⟨by simpa [identStart] using hs, this.2.2.2.1, this.2.2.2.2.1⟩
+
+theorem identOk_ne_nil (n : Str) (h : identOk n = true) : n ≠ [] := by
+  intro e; subst e; simp [identOk] at h
+
+theorem prefixDart_eval (e : Env) (sc : Scope) (delim : Str) (h : PlainScope sc delim)
+    (hnd : sc.vars.Nodup) (hid : sc.vars.all identOk = true) (hsafe : dartSafe sc.pfx delim = true) :
+    eval e (prefixDart sc.pfxStr delim sc.vars) = some (prefixVal sc e.vals delim) := by
+  rw [vars_eq sc h.wf] at hnd hid ⊢
+  unfold prefixDart dartSrc prefixVal Scope.pfxStr
+  cases hp : sc.pfx with
+  | nil => simp [prefixString, dolAux, eval]
+  | cons t ts =>
+    have hwf : ∀ u ∈ t :: ts, u.wf = true := hp ▸ h.wf
+    have hpl : plainTokens (t :: ts) = true := hp ▸ h.plain
+    have hne := prefixString_ne_nil t ts (hwf t (by simp))
+    rw [hp] at hnd hid hsafe
+    have hd : delim.all plainChar = true := h.pdelim
+    by_cases hv : varNames (t :: ts) = []
+    · have hall := novars_all _ hv
+      have hs := (novars_prefix [] e.vals _ hall).2
+      have hr := (novars_prefix ['%', 's'] e.vals _ hall).1
+      have hps := plain_prefix _ hpl hall
+      rw [if_neg hne, if_pos hv, if_neg (by simp), hs, templateStr_prefixString _ _ hwf, hr]
+      simp only
+      have := dol_plain (varNames (t :: ts)) e (prefixString (t :: ts) ++ delim) [] (by
+        simp only [plainStr] at hps ⊢; simp [List.all_append, hps, hd])
+      simp only [List.append_nil] at this
+      rw [this]; simp [dolAux, eval]
+    · rw [if_neg hne, if_neg hv, if_neg (by simp), templateStr_prefixString _ _ hwf]
+      have h1 := pct_prefix hzNone hzNone_ok ⟨(varNames (t :: ts)).map (fun v => '$' :: v), [], [], []⟩ (t :: ts) delim hpl h.pdelim (by simp)
+      rw [h1]
+      simp only
+      -- the Dart source text is the prefix with `$name` for every variable, then the delimiter
+      have hne' : ∀ n ∈ varNames (t :: ts), n ≠ [] := fun n hn => identOk_ne_nil n (List.all_eq_true.1 hid n hn)
+      have hfollow : lastIsVar (t :: ts) = true → OkFollow delim := by
+        intro hl
+        apply okFollow_delim delim h.pdelim
+        simpa [dartSafe, hl] using hsafe
+      have hdelim := dol_plain (varNames (t :: ts)) e delim [] h.pdelim
+      simp only [List.append_nil] at hdelim
+      simp only [plainTokens, List.all_cons, Bool.and_eq_true] at hpl
+      simp only [substPrefix, List.append_assoc]
+      change eval e (dolAux (varNames (t :: ts)) none (substTok (refs (varNames (t :: ts))) t 0 ++ (substTail (refs (varNames (t :: ts))) ts (nextIdx t 0) ++ delim))) = _
+      have hdrop0 : (varNames (t :: ts)).drop 0 = varNames (t :: ts) := rfl
+      have hnext : (varNames (t :: ts)).drop (nextIdx t 0) = varNames ts := by
+        cases hvn : t.varName with
+        | none =>
+          have : t.isVar = false := (varName_none_iff t).1 hvn
+          simp [varNames, hvn, nextIdx, this]
+        | some n =>
+          have : t.isVar = true := by
+            cases ht : t.isVar with
+            | true => rfl
+            | false => rw [(varName_none_iff t).2 ht] at hvn; cases hvn
+          simp [varNames, hvn, nextIdx, this]
+      have hn : ∀ n, t.varName = some n → (refs (varNames (t :: ts))).getD 0 [] = '$' :: n ∧ resolve (varNames (t :: ts)) n = .var 0 := by
+        intro n hvn
+        have hd0 : (varNames (t :: ts)).drop 0 = n :: varNames ts := by simp [varNames, hvn]
+        have hmem : n ∈ varNames (t :: ts) := List.mem_of_mem_drop (by rw [hd0]; simp)
+        exact ⟨refs_getD _ 0 n _ hd0, resolve_of_drop _ 0 n _ hnd hd0 (hne' n hmem)⟩
+      have hF : t.isVar = true → OkFollow (substTail (refs (varNames (t :: ts))) ts (nextIdx t 0) ++ delim) := by
+        intro hvt
+        cases ts with
+        | nil => simpa [substTail] using hfollow (by simp [lastIsVar, hvt])
+        | cons u us => simp only [substTail, List.cons_append]; exact dot_follow _
+      have hr' : lastIsVar ts = true → OkFollow delim := by
+        intro hl
+        cases ts with
+        | nil => simp [lastIsVar] at hl
+        | cons u us => exact hfollow (by simpa [lastIsVar] using hl)
+      rw [dol_tok _ e t _ 0 hpl.1 hn hF,
+        dol_tail _ e ts delim _ (by simpa [plainTokens] using hpl.2) hnd hnext hne' hr', hdelim]
+      simp [dolAux, eval]
+
+
 end FV.Topic
